@@ -209,6 +209,14 @@ impl Monitor for C08 {
         };
         for id in &ch {
             let owner = post.get(id).or(pre.get(id)).map(|p| p.receiver.clone()).unwrap();
+            // a position that existed before must not end up in somebody else's hands or be
+            // replaced by somebody else's position under the same identifier
+            if let (Some(b), Some(a)) = (pre.get(id), actor) {
+                if b.receiver != *a {
+                    rep.failed("non_interference", None, format!("position {id} of {} was changed or replaced by a {} from {}", w.name_of(b.receiver.as_str()), s.op.kind(), w.name_of(a.as_str())), witness(json!({"before": format!("{b}"), "after": post.get(id).map(|p| format!("{p}"))})));
+                    continue;
+                }
+            }
             match actor {
                 Some(a) if *a == owner => {
                     rep.held("non_interference", hash_of(&(s.op.kind(), via_pm)), || json!({"position": id, "changed_by_its_owner_via": s.op.kind()}));
@@ -227,6 +235,12 @@ impl Monitor for C08 {
                     if let Some(r) = receiver {
                         if r != sender.as_str() && *sender != w.pm {
                             rep.failed("authz", None, "position created for someone else by a non-delegate".into(), witness(json!({})));
+                        }
+                    }
+                    // creating never touches what is already recorded, for anybody
+                    for (id, b) in pre.iter() {
+                        if post.get(id) != Some(b) {
+                            rep.failed("create_records", None, format!("creating a position changed the existing position {id}"), witness(json!({"before": format!("{b}"), "after": post.get(id).map(|p| format!("{p}"))})));
                         }
                     }
                     let newp: Vec<&Position> = post.iter().filter(|(id, _)| !pre.contains_key(*id)).map(|(_, p)| p).collect();
